@@ -228,6 +228,23 @@ def check_pair(cls, p0, p1, L, O, orderby, par, exec_ok):
         return [("raises:" + type(e).__name__, repr(e))]
     t0, t1 = lex.lex(s0, cls), lex.lex(s1, cls)
     sp = split_tail(t0, t1)
+    if sp is None and t1 and t1[0].text == "(" and t0 and t0[0].text != "(":
+        # an un-bracketed set-operation operand gains brackets once it carries clauses of its own (they would end the operand otherwise):
+        # the row-limiting clause must then be the last thing inside those brackets
+        depth, j = 0, None
+        for k, t in enumerate(t1):
+            if t.kind == "punct" and t.text == "(":
+                depth += 1
+            elif t.kind == "punct" and t.text == ")":
+                depth -= 1
+                if depth == 0:
+                    j = k
+                    break
+        if j is not None:
+            t1b = t1[1:j] + t1[j + 1:]
+            sp2 = split_tail(t0, t1b)
+            if sp2 is not None and sp2[0] + len(sp2[1]) == j - 1:
+                sp, t1 = sp2, t1b
     if sp is None:
         return [("not_an_insertion", "%r vs %r" % (s1, s0))]
     p, tail = sp
